@@ -97,7 +97,16 @@ impl<T: Message<Response = ()> + Clone> Handler<Publish<T>> for Broker<T> {
             .values()
             .filter_map(WeakSender::upgrade)
             .collect::<Vec<_>>();
+        #[cfg(hannibal_verif)]
+        {
+            crate::verif::broker(_ctx.id, "publish", 0);
+            for subscriber in &live_subscribers {
+                crate::verif::broker(_ctx.id, "holds", subscriber.verif_id().raw());
+            }
+        }
         for subscriber in &live_subscribers {
+            #[cfg(hannibal_verif)]
+            crate::verif::broker(_ctx.id, "target", subscriber.verif_id().raw());
             if let Err(_error) = subscriber.send(msg.0.clone()).await {
                 // log::warn!("Failed to send message to subscriber: {:?}", error)
             }
@@ -110,6 +119,8 @@ impl<T: Message<Response = ()> + Clone> Handler<Publish<T>> for Broker<T> {
 
         self.subscribers
             .retain(|_, sender| sender.upgrade().is_some());
+        #[cfg(hannibal_verif)]
+        crate::verif::broker(_ctx.id, "published", 0);
     }
 }
 
@@ -127,6 +138,8 @@ impl<T: Message<Response = ()>> Message for Unsubscribe<T> {
 
 impl<T: Message<Response = ()> + Clone> Handler<Subscribe<T>> for Broker<T> {
     async fn handle(&mut self, _ctx: &mut Context<Self>, Subscribe(sender): Subscribe<T>) {
+        #[cfg(hannibal_verif)]
+        crate::verif::broker(_ctx.id, "subscribe", sender.id.raw());
         self.subscribers.insert(sender.id, sender);
         log::trace!("subscribed to topic {:?}", std::any::type_name::<T>());
     }
@@ -134,6 +147,8 @@ impl<T: Message<Response = ()> + Clone> Handler<Subscribe<T>> for Broker<T> {
 
 impl<T: Message<Response = ()> + Clone> Handler<Unsubscribe<T>> for Broker<T> {
     async fn handle(&mut self, _ctx: &mut Context<Self>, Unsubscribe(sender): Unsubscribe<T>) {
+        #[cfg(hannibal_verif)]
+        crate::verif::broker(_ctx.id, "unsubscribe", sender.id.raw());
         self.subscribers.remove(&sender.id);
         log::trace!("unsubscribed to topic {:?}", std::any::type_name::<T>());
     }
